@@ -79,8 +79,25 @@ func vHostilePrelude(t *testing.T) {
 	_, _, _ = Ciphersuite(), ScalarLength(), ElementLength()
 }
 
-// vSanity checks a handful of API facts against math/big oracles; "" when all hold.
-func vSanity(t *testing.T) string {
+// vPreludeSafe runs the prelude; what goes wrong inside it is not the concern of the case that uses it to set the scene.
+func vPreludeSafe(t *testing.T) {
+	defer func() { _ = recover() }()
+	vHostilePrelude(t)
+}
+
+// vSanity checks a handful of API facts against math/big oracles; "" when all hold.  scope selects the facts a property
+// is about: "scalar", "element" (which needs scalars for Multiply), "hash", or "all".
+func vSanity(t *testing.T, scope string) string {
+	if scope == "" {
+		scope = "all"
+	}
+	if scope == "hash" {
+		dst := []byte("QUUX-V01-CS02-with-secp256k1_XMD:SHA-256_SSWU_RO_")
+		if got, ok := vPointOf(HashToGroup([]byte("abc"), dst)); !ok || !vSame(got, vHashToCurve([]byte("abc"), dst, true)) {
+			return "sanity: HashToGroup(abc) is not the RFC 9380 point"
+		}
+		return ""
+	}
 	g := vG()
 	one, zero, two := vScalarOf(t, big.NewInt(1)), vScalarOf(t, big.NewInt(0)), vScalarOf(t, big.NewInt(2))
 	nm1v, nm2v := new(big.Int).Sub(vN, big.NewInt(1)), new(big.Int).Sub(vN, big.NewInt(2))
@@ -128,6 +145,9 @@ func vSanity(t *testing.T) string {
 			return "sanity: Bits() is not the canonical bit string"
 		}
 	}
+	if scope == "scalar" {
+		return ""
+	}
 	for _, id := range []*Element{NewElement(), NewElement().Identity(), Base().Subtract(Base()), Base().Multiply(nm1).Add(Base()), Base().Multiply(zero)} {
 		if !bytes.Equal(id.Encode(), []byte{0}) || !bytes.Equal(id.EncodeUncompressed(), []byte{0}) || !id.IsIdentity() {
 			return "sanity: an identity does not encode as the single byte 00"
@@ -163,6 +183,9 @@ func vSanity(t *testing.T) string {
 	if got, ok := vPointOf(e.Copy().Add(Base()).Double()); !ok || !vSame(got, vMulPt(big.NewInt(12), g)) {
 		return "sanity: 2(5G+G) wrong"
 	}
+	if scope == "element" {
+		return ""
+	}
 	dst := []byte("QUUX-V01-CS02-with-secp256k1_XMD:SHA-256_SSWU_RO_")
 	if got, ok := vPointOf(HashToGroup([]byte("abc"), dst)); !ok || !vSame(got, vHashToCurve([]byte("abc"), dst, true)) {
 		return "sanity: HashToGroup(abc) is not the RFC 9380 point"
@@ -173,9 +196,25 @@ func vSanity(t *testing.T) string {
 func vRunCase10(t *testing.T, c vCase) (msg string) {
 	switch c.Kind {
 	case "hostile-prelude":
-		vHostilePrelude(t)
+		// the prelude only sets the scene: what goes wrong inside it is some other property's business
+		func() {
+			defer func() { _ = recover() }()
+			vHostilePrelude(t)
+		}()
 	case "sanity":
-		return vSanity(t)
+		return vSanity(t, c.Op)
+	case "prelude-then-sanity":
+		// what the hostile caller does must not change later results: facts that already fail before the prelude are not counted
+		if vSanity(t, c.Op) != "" {
+			return ""
+		}
+		func() {
+			defer func() { _ = recover() }()
+			vHostilePrelude(t)
+		}()
+		if m := vSanity(t, c.Op); m != "" {
+			return "after a caller used the API and wrote into the slices it was handed: " + m
+		}
 	default:
 		return vRunCase11(t, c)
 	}
